@@ -306,6 +306,33 @@ def kernel_queries(db, contracts, consts):
 REF_FOR = os.path.join(bx2c.REPO, 'resources/code/decay0/decay0_2020-04-20.for')
 
 
+def bbk_queries(db, prop, tier):
+    """decay0_bb under its own contract (contracts/bb.contract): one query per cut point and legacy mode; the arithmetic lemmas
+    of the energy budget are separate program-free queries (C03 only)"""
+    import bbk
+    spec = os.path.join(VERIF, 'contracts', 'bb.contract')
+    qs, skipped = [], []
+    for k, cname, mode in bbk.plan():
+        try:
+            q = bbk.build(db, spec, k, mode)
+        except bx2c.Unsupported as e:
+            skipped.append(('decay0_bb %s mode %d' % (cname, mode), 'NOT COVERED: ' + str(e)[:300]))
+            continue
+        qs.append(Query('bbk/%s/mode%d' % (cname, mode), q['c'], checks=['--no-standard-checks', '--bounds-check', '--pointer-check', '--conversion-check', '--div-by-zero-check', '--signed-overflow-check'],
+                        meta=q['meta'], timeout=2400, mem_gb=10))
+    if prop == 'C03':
+        for name in sorted(bbk.parse_spec(spec)['lemma']):
+            if tier != 'thorough' and name in ('W2', 'W20'):
+                # 23 min (W2) and > 50 min (W20) of CaDiCaL: thorough tier only; the quick tier lists them as assumed
+                skipped.append(('bbk/lemma/%s' % name, 'ASSUMED in the quick tier (IEEE add/sub lemma, decided or attempted in the thorough tier only)'))
+                continue
+            q = bbk.build_lemma(spec, name)
+            qq = Query('bbk/lemma/%s' % name, q['c'], checks=['--no-standard-checks'], meta=q['meta'], timeout=3600 if tier == 'thorough' else 1500, mem_gb=8)
+            qq.meta['soft'] = True
+            qs.append(qq)
+    return qs, skipped
+
+
 def rel_queries(db, prop):
     """relational obligations against the Fortran reference: C01 = published background nuclides, C02 = everything
     that serves double-beta events (the *low cascades and the alpha-chain daughters)"""
@@ -743,6 +770,10 @@ def prop_l3(prop, tier, seed):
             queries += [q for q in gq if q.qid.startswith('genbbsub/c05dbd/')]
         if prop == 'C03' and tier == 'thorough':
             queries += evis_queries(db, contracts, consts)
+        if prop in ('C03', 'C08'):
+            qs, sk = bbk_queries(db, prop, tier)
+            queries += qs
+            skipped += sk
     results = run_all(queries)
     return evaluate(prop, queries, results, known, tier, seed, t0, skipped=skipped, selfcheck=sc,
                     assumptions=ASSUMPTIONS.get(prop, []))
@@ -858,6 +889,12 @@ def prop_rel(prop, tier, seed):
                                'arithmetic': 'uninterpreted + - * / and libm (equal under every interpretation => equal under IEEE); literals within 5e-6 relative are one constant'})
 
 
+BBK_ASSUMPTIONS = [
+    'decay0_bb preconditions = what genbbsub establishes: mode 1..20, 0 < Qbb <= 4.3 MeV, e0 > 0, window min < max as decay0_generator enforces (tied to the level table by the C06 obligations, not re-proved here)',
+    'decay0_bb abstraction: deviate * x is ANY value between 0 and x (sound over-approximation; the exact product defeats the SAT back end)',
+    'decay0_bb abstraction: a product of two non-literal doubles and every quotient is an uninterpreted function of its operands; AXIOM div-range: a >= 0, b >= 0.5 => 0 <= a/b <= 2a',
+    'decay0_bb callees fe*_mod*, gauss, dgmlt1, tgold, fermi return ANY double (their values reach table contents and comparisons only)',
+]
 ASSUMPTIONS = {
     'C02+': ['decay0_gauss (GSL QNG) and the reference gauss (CERNLIB D103 adaptive 8/16-point) are different algorithms for the same integral to the same relative tolerance: treated as one abstract effect of (integrand, limits, eps, closure); their numerical agreement is NOT decided',
              'dgmlt1/dgmlt2 (CERNLIB D110) are not part of the reference source file: abstract effect of (integrand, limits, ni, ng, closure) on both sides; their quadrature tables are decided by C16, the summation loop is not compared',
@@ -880,9 +917,11 @@ ASSUMPTIONS = {
     'C04': ['deviates are doubles strictly inside (0,1) (i_random documents [0,1): a deviate of exactly 0 gives log(0))',
             'time order at L3 follows from the leaf contract (time = previous + tdlev, tdlev >= tclev >= 0) and the call-site preconditions; the running sum itself is not re-proved at L3',
             'termination after a bounded number of deviates is almost-sure only and is not claimed; what is proved: every cycle consumes >= 1 deviate and has an exit edge'],
-    'C08': ['uninitialised reads are not a CBMC check', 'std::vector modelled as: any push_back may reallocate (capacity arbitrary)'],
+    'C08': ['uninitialised reads are not a CBMC check', 'std::vector modelled as: any push_back may reallocate (capacity arbitrary)'] + BBK_ASSUMPTIONS,
     'C03': ['nominal energy accounting: the L1/L2 contracts define the nominal release (Egamma); the gap to the energy really booked is bounded per call by the L2 lemmas',
-            'sum of <= 100 per-call gaps <= 2.5e-4 MeV (triangle inequality over reals)'],
+            'sum of <= 100 per-call gaps <= 2.5e-4 MeV (triangle inequality over reals)',
+            'decay0_bb: a momentum p = sqrt(e(e+2m)) along (sin t cos f, sin t sin f, cos t) carries kinetic energy e (real-arithmetic lemma, not decided); the budget lemmas W2 and W20 of contracts/bb.contract are decided/attempted in the thorough tier only and otherwise ASSUMED (machine arithmetic treated as mathematical)',
+            'NOT CLAIMED: toallevents >= 1, == 1 for the full range, monotone in the window (properties of the numerical integrators gauss/dgmlt1, outside contracts on this code)'] + BBK_ASSUMPTIONS,
 }
 
 
